@@ -303,6 +303,7 @@ func (p *Pool) Put(x any) {
 		return
 	}
 	p.items = append(p.items, x)
+	rt.Yield() // x is visible to other tasks before the caller's next statement runs
 }
 
 // Map is a minimal simulated sync.Map (ordered by insertion for determinism).
